@@ -350,6 +350,7 @@ func (h *harness) runChild(bin string, extraEnv []string, tag string) {
 		Distribution map[string]int  `json:"distribution"`
 		Violations   []lib.Violation `json:"violations"`
 		Notes        []string        `json:"notes"`
+		Fatal        []string        `json:"fatal"`
 	}
 	b, _ := os.ReadFile(out.Name())
 	parsed := len(b) > 0 && json.Unmarshal(b, &child) == nil
@@ -365,6 +366,9 @@ func (h *harness) runChild(bin string, extraEnv []string, tag string) {
 		}
 		for _, n := range child.Notes {
 			h.res.Note("%s%s", tag, n)
+		}
+		for _, ft := range child.Fatal {
+			h.res.Fatalf("%schild: %s", tag, ft)
 		}
 	}
 	replay := map[string]any{"kind": "concurrent", "seed": h.f.Seed, "tier": h.f.Tier, "race_build": tag != ""}
